@@ -1,7 +1,12 @@
 //! One module per property; `dispatch` maps the CLI to them.
 use crate::check::Ctx;
 
+pub mod behave;
 pub mod c01;
+pub mod c02;
+pub mod c03;
+pub mod c05;
+pub mod c06;
 pub mod c12;
 pub mod c13;
 pub mod c14;
@@ -13,6 +18,10 @@ pub mod common;
 pub fn dispatch(ctx: &Ctx, args: &[String]) -> i32 {
     match ctx.prop.as_str() {
         "C01" => c01::run(ctx),
+        "C02" => c02::run(ctx),
+        "C03" => c03::run(ctx),
+        "C05" => c05::run(ctx),
+        "C06" => c06::run(ctx),
         "C12" => c12::run(ctx),
         "C13" => c13::run(ctx),
         "C14" => c14::run(ctx),
